@@ -3,6 +3,7 @@ package main
 import (
 	stdjson "encoding/json"
 	"fmt"
+	"sync"
 
 	"verifharness/jsonread"
 	"verifharness/lib"
@@ -24,6 +25,7 @@ type wordLine struct {
 	IndentP    []int              `json:"indentp"`
 	HTMLEsc    []int              `json:"htmlesc"`
 	MaxDepth   int                `json:"maxdepth"`
+	noProbes   bool               // the nesting-limit texts: one probe patch only (they are 50 kB each)
 }
 
 func toBytes(a []int) []byte {
@@ -136,10 +138,13 @@ func (e *engine) wordAcceptance(ln *wordLine, text []byte, expect func(string, b
 	if e.prop == "C04" {
 		// the oracle of C04 is "the call returned": use every word as a document under real operations,
 		// as a patch on the probe documents, with every option combination, and through ApplyIndent
-		for _, pt := range probePatches {
-			for _, o := range probeOpts {
+		for pi, pt := range probePatches {
+			for oi, o := range probeOpts {
 				if !lib.Supported(o) {
 					continue
+				}
+				if (!v || ln.noProbes) && (pi > 0 || oi > 0) {
+					continue // an ill-formed document never reaches the operations: one probe is enough
 				}
 				try("Apply(document, probe patch)", func() bool { _, aerr, derr := lib.Apply(text, pt, o, ""); return aerr == nil && derr == nil })
 			}
@@ -208,8 +213,25 @@ var probeOpts = []lib.Opts{
 // depthLimit: nesting d is accepted exactly when d <= MaxDepth (the specification's scanner and grammar agree on
 // that for MaxDepth = 3, checked by TLC in the depth stage; the real constant is the MaxDepth of the emitting model).
 func (e *engine) depthLimit(worker int, max int) {
+	// the six texts are 50 kB each and several entry points are quadratic in the nesting depth: run them side by side
+	var wg sync.WaitGroup
+	slot := e.nworkers
 	for _, d := range []int{max - 1, max, max + 1} {
 		for _, shape := range []string{"arr", "obj"} {
+			wg.Add(1)
+			go func(d int, shape string, worker int) {
+				defer wg.Done()
+				e.depthCase(worker, max, d, shape)
+			}(d, shape, slot)
+			slot++
+		}
+	}
+	wg.Wait()
+}
+
+func (e *engine) depthCase(worker int, max int, d int, shape string) {
+	{
+		{
 			var b []byte
 			for i := 0; i < d; i++ {
 				if shape == "arr" {
@@ -228,7 +250,7 @@ func (e *engine) depthLimit(worker int, max int) {
 					b = append(b, ']')
 				}
 			}
-			ln := wordLine{Fam: "word", Valid: d <= max, Root: shape, PatchOK: false, CreateKind: map[string]string{"arr": "reject", "obj": "obj"}[shape], MaxDepth: max}
+			ln := wordLine{Fam: "word", Valid: d <= max, Root: shape, PatchOK: false, CreateKind: map[string]string{"arr": "reject", "obj": "obj"}[shape], MaxDepth: max, noProbes: true}
 			if !ln.Valid {
 				ln.Root, ln.CreateKind = "none", "reject"
 			}
